@@ -117,7 +117,7 @@ def check_property(pid, tier, seed, jobs=None):
     mod = property_module(pid)
     run = Run(pid, tier, seed)
     ledger = load_ledger()
-    cfg = {"timeout_ms": 8000 if tier == "quick" else 60000, "tier": tier, "seed": seed}
+    cfg = {"timeout_ms": 8000 if tier == "quick" else 60000, "tier": tier, "seed": seed, "budget_s": 420 if tier == "quick" else 3600}
     contracts = [c for c in contract_mod.BY_PROPERTY.get(pid, []) if not c.model_only]
     lemmas = contract_mod.LEMMAS.get(pid, [])
     vjobs = [(c.key, vl, cfg) for c in contracts for vl, _ in (c.variants or [(None, None)])]
